@@ -231,3 +231,38 @@ def describe(c):
     return {"node_level": nl, "record_level": L, "attached": att,
             "appenders": [{"kind": {0: "succeeds", 1: "fails", 2: "log::Log value, enabled()=false"}.get(f, f), "filters": [names[x[1]] if x[0] == 0 else "Threshold(%d)" % x[1] for x in fs]}
                           for f, fs in apps]}
+
+
+def extra_checks(ctx, cases, impl_lines, model_lines):
+    """the DEFAULT error handler (Logger::new) in a child process whose stderr cannot be written (/dev/full; a
+    pipe whose reader is gone): two failing appenders among four, three records - no panic reaches the caller
+    and every appender still gets every record (direct oracle)"""
+    import os
+    import subprocess
+    vc = ctx["vc"]
+    res = []
+    for what in ("/dev/full", "closed-pipe"):
+        if what == "/dev/full":
+            if not os.path.exists("/dev/full"):
+                continue
+            err = open("/dev/full", "wb")
+            rfd = None
+        else:
+            rfd, wfd = os.pipe()
+            os.close(rfd)
+            err = os.fdopen(wfd, "wb")
+        try:
+            p = subprocess.run([ctx["vh"], "default-handler"], stdin=subprocess.DEVNULL, stdout=subprocess.PIPE,
+                               stderr=err, timeout=60, env=vc.ENV)
+            out = p.stdout.decode("utf-8", "replace").strip()
+        except subprocess.TimeoutExpired:
+            out = "hang"
+        finally:
+            err.close()
+        if out != "0 12":
+            res.append(("default error handler with an unwritable stderr (%s): (panics reaching the caller, deliveries) = "
+                        "%r, expected '0 12' (3 records x 4 attached appenders, two of them failing)" % (what, out),
+                        {"scenario": "c03 default-handler with stderr=" + what}))
+            break
+    ctx.setdefault("xcheck", {})["default_handler_children"] = 2
+    return res
